@@ -1,5 +1,8 @@
 import Proofs.Graded
 import Model.Table
+import Proofs.Storage
+import Proofs.KernelArr
+import Proofs.Refine
 
 /-! # C02 — outer, inner and left-contraction products are the right grade parts of A*B
 
@@ -75,6 +78,19 @@ theorem grade_xor (a b : Nat) : pc n (a ^^^ b) + 2 * pc n (a &&& b) = pc n a + p
 theorem gradedMt_mem (grade : Nat → Nat) (chk : Int → Int → Int → Bool) (es : List Entry) (e : Entry) :
     e ∈ gradedMt grade chk es ↔ e ∈ es ∧ chk (grade e.l) (grade e.k) (grade e.m) = true := by
   simp [gradedMt, List.mem_filter]
+
+/-- **storage level**: the contraction of the *executable* masked table (`gradedMt`, the model of
+`construct_graded_mt`; `grade i = count_set_bits(index_to_bitmap[i])`) is the masked canonical product `mmul`
+conjugated by the storage order — for `omt`, `imt` and `lcmt` alike (`chk` is the code's predicate) -/
+theorem graded_table_contraction_is_mmul (n : Nat) (sig : Nat → Int) (σ : Equiv.Perm (Bm n)) (i2b b2i : Nat → Nat)
+    (chk : Int → Int → Int → Bool)
+    (h1 : ∀ i : Bm n, i2b i.val = (σ i).val) (h2 : ∀ c : Bm n, b2i c.val = (σ.symm c).val) (a b : Array R) (j : Bm n) :
+    contraction (gradedMt (fun i => popcount (i2b i)) chk (constructGmt sig i2b b2i (2 ^ n))) a b j.val
+      = mmul n (fun i => ((sig i : Int) : R)) chk (fun c => a.getD (b2i c.val) 0) (fun c => b.getD (b2i c.val) 0) (σ j) := by
+  apply storage_bridge_graded n sig σ i2b b2i (fun i => popcount (i2b i)) chk h1 h2 _ a b j
+  intro i
+  show popcount (i2b i.val) = pc n (σ i).val
+  rw [h1 i, popcount_spec n _ (σ i).isLt]; rfl
 
 /-- non-vacuity: a homogeneous grade-1 element exists in every dimension ≥ 1 and the predicates fire -/
 example : omtCheck 3 1 2 = true ∧ imtCheck 1 1 2 = true ∧ lcmtCheck 1 1 2 = true ∧ lcmtCheck 1 2 1 = false
